@@ -212,7 +212,7 @@ def run(tier, seed, procs):
     quick = tier == 'quick'
     shards, per = (8, 300) if quick else (16, 15000)
     cols = drive.pool_map(shard_vectors, [(per, seed * 1000 + i) for i in range(shards)], procs)
-    kinds = list(gen.STORY_KINDS) + ['roReplace']
+    kinds = list(gen.STORY_KINDS) + ['roReplace', 'roMetadataReplace']     # (the latter may carry a new roEdStart)
     kw = dict(kinds=kinds, faults='none', rich=True, timing_mode='timed', min_stories=2)
     cols += drive.pool_map(drive.shard_hyp_steps,
                            [(MOD, per // 2, seed * 1000 + 100 + i, kw) for i in range(shards)], procs)
